@@ -24,7 +24,9 @@ OkFixedName(e) ==
               /\ e.tzname = (IF r.off = 0 THEN UTCName ELSE e.name))
   \* anything else goes to the zone data source (which serves nothing here) and fails with UTC
   /\ ~r.ok => (e.ok = 0 /\ e.off = 0 /\ e.tzname = UTCName)
-Allowed(e) == CASE e.e = "Fixed" -> OkFixed(e) [] e.e = "FixedBig" -> OkFixedBig(e) [] e.e = "FixedName" -> OkFixedName(e) [] OTHER -> FALSE
+\* a text is a fixed-offset name only if it has exactly that shape: "UTC", "UTC0" or the 18 characters - whatever it begins with
+OkFixedLong(e) == e.ub = 0 /\ ((e.len # W(3) /\ e.len # W(4) /\ e.len # W(18)) => e.fok = 0)
+Allowed(e) == CASE e.e = "FixedLong" -> OkFixedLong(e) [] e.e = "Fixed" -> OkFixed(e) [] e.e = "FixedBig" -> OkFixedBig(e) [] e.e = "FixedName" -> OkFixedName(e) [] OTHER -> FALSE
 Init == l = 1 /\ bad = 0
 Next == /\ l <= TraceLen
         /\ l' = l + 1
